@@ -127,9 +127,10 @@ def main():
     divs = [(e, s) for e, s in undefined if s[3] in ('err-div-zero', 'err-overflow')][:60 if run.quick() else 400]
     divs += [(('B', 'div', ('L', 'i32', 1), ('L', 'i32', 0)), None), (('B', 'mod', ('L', 'u64', 5), ('L', 'u8', 0)), None),
              (('B', 'div', ('L', 'i64', -2**63), ('L', 'i32', -1)), None)]
+    divs = [(e, s, i) for i, (e, s) in enumerate(divs)]
     def one_div(x):
-        e, s = x
-        f1 = os.path.join(wd, 'dz%d.c' % (id(x) % 100000)); open(f1, 'w').write('long g = %s;\n' % to_const_c(e))
+        e, s, i = x
+        f1 = os.path.join(wd, 'dz%d.c' % i); open(f1, 'w').write('long g = %s;\n' % to_const_c(e))
         rc, o, er = sh(CHIBI + ['-cc1', '-cc1-input', f1, '-cc1-output', '/dev/null', f1])
         return e, rc, er
     for e, rc, er in pmap(one_div, divs):
